@@ -29,3 +29,24 @@ func VerifC19NewWriter(t string, write func([]kafka.Message)) *KafkaWriter {
 func VerifC19Probe(w *KafkaWriter) (inChannel, inBuffer, doneTokens int) {
 	return len(w.toBatchMessagesChan), w.messageBuffer.Length(), len(w.batchingLoopDoneCh)
 }
+
+// ---- added for the "channel full" schedules of the C19 harness (add-only) ----
+
+// VerifC19ChanCap is the capacity of the producer -> batching-loop channel as constructed by
+// NewWriterWithTopic.
+func VerifC19ChanCap(w *KafkaWriter) int { return cap(w.toBatchMessagesChan) }
+
+// VerifC19ChanLen is the number of messages queued in the producer -> batching-loop channel.
+// Unlike VerifC19Probe it does not touch the FifoBuffer, so it can be called while the buffer is
+// held by VerifC19HoldBuffer.
+func VerifC19ChanLen(w *KafkaWriter) int { return len(w.toBatchMessagesChan) }
+
+// VerifC19HoldBuffer stalls the batching loop: it takes the mutex every FifoBuffer operation
+// (Push, PopMultiple, Length, ReleaseGoroutines) takes, so the batching loop stops at its next
+// Push — with one message in its hand — and the channel behind it fills up.  The returned
+// function gives the mutex back (call it exactly once).  Nothing else is touched.
+func VerifC19HoldBuffer(w *KafkaWriter) (release func()) {
+	l := w.messageBuffer.cond.L
+	l.Lock()
+	return l.Unlock
+}
